@@ -145,6 +145,77 @@ Proof.
     exact (proj1 (built_products_nil x s) J3 g Hp' Hb').
 Qed.
 
+
+(* ---- delete_detached: nodes, file rows and stored hashes are only removed -------------------------- *)
+Record Kh (x : str) (s s' : st) : Prop := mkKh {
+  kh_hash : has_hash x s' = true -> has_hash x s = true;
+  kh_g : forall g, prodf x g s' -> builtf g s' -> prodf x g s /\ builtf g s }.
+
+Lemma Kh_refl x s : Kh x s s.
+Proof. constructor; auto. Qed.
+Lemma Kh_trans x a b c : Kh x a b -> Kh x b c -> Kh x a c.
+Proof. intros [H1 G1] [H2 G2]. constructor; auto. intros g Hp Hb. destruct (G2 g Hp Hb) as [Hp' Hb']. auto. Qed.
+Lemma Kw_Kh x s s' : Kw x s s' -> Kh x s s'.
+Proof. intros [_ H G]. constructor; assumption. Qed.
+Lemma Kh_Ix x s s' : Kh x s s' -> Ix x s -> Ix x s'.
+Proof.
+  intros [H G] [J2 J3]. split.
+  - destruct (has_hash x s') eqn:E; [|reflexivity]. rewrite (H eq_refl) in J2. discriminate.
+  - apply built_products_nil. intros g Hp Hb. destruct (G g Hp Hb) as [Hp' Hb'].
+    exact (proj1 (built_products_nil x s) J3 g Hp' Hb').
+Qed.
+
+Lemma find_filter_keep {A} (p q : A -> bool) l :
+  (forall y, p y = true -> q y = true) -> find p (filter q l) = find p l.
+Proof.
+  intros H. induction l as [|a l IH]; [reflexivity|]. cbn [filter find].
+  destruct (q a) eqn:Q; cbn [find]; [rewrite IH; reflexivity|].
+  destruct (p a) eqn:P; [rewrite (H a P) in Q; discriminate | exact IH].
+Qed.
+
+Lemma find_file_filtered g lab l r :
+  find (fun f => str_eqb (fl f) g) (filter (fun r => negb (str_eqb (fl r) lab)) l) = Some r ->
+  find (fun f => str_eqb (fl f) g) l = Some r.
+Proof.
+  intros H. pose proof (find_some _ _ H) as [Hin Hp]. apply filter_In in Hin. destruct Hin as [_ Hq].
+  apply str_eqb_eq in Hp. rewrite Hp in Hq.
+  rewrite <- H. symmetry. apply find_filter_keep. intros y Hy. apply str_eqb_eq in Hy. rewrite Hy. exact Hq.
+Qed.
+
+Lemma Kh_delete_node x k s : Kh x s (delete_node k s).
+Proof.
+  assert (Hn : forall n, In n (nodes (delete_node k s)) -> In n (nodes s)).
+  { intros n. unfold delete_node. destruct (fst k); cbn; intros H; apply filter_In in H; apply H. }
+  assert (Hh : incl (shash (delete_node k s)) (shash s)).
+  { unfold delete_node. destruct (fst k); cbn; try apply incl_refl. intros y Hy. apply filter_In in Hy. apply Hy. }
+  assert (Hf : forall g r, find_file g (delete_node k s) = Some r -> find_file g s = Some r).
+  { intros g r. unfold delete_node, find_file. destruct (fst k); cbn; auto. apply find_file_filtered. }
+  constructor.
+  - apply has_hash_incl. exact Hh.
+  - intros g Hp Hb. split.
+    + unfold prodf, products in *. apply in_map_iff in Hp. destruct Hp as [n [E Hin]]. apply filter_In in Hin.
+      destruct Hin as [Hin Hc]. apply in_map_iff. exists n. split; [exact E|]. apply filter_In. split; [apply Hn; exact Hin | exact Hc].
+    + unfold builtf, fstate_of in *. destruct (find_file g (delete_node k s)) as [r|] eqn:E; [|discriminate].
+      rewrite (Hf g r E). exact Hb.
+Qed.
+
+Lemma Kh_dd_loop x fuel : forall lost s, Kh x s (fst (dd_loop fuel lost s)).
+Proof.
+  induction fuel as [|fuel IH]; intros lost s; cbn [dd_loop]; [apply Kh_refl|].
+  destruct (find (fun n => deletable n s) (nodes s)) as [n|]; [|apply Kh_refl].
+  eapply Kh_trans; [apply Kh_delete_node | apply IH].
+Qed.
+
+Lemma Kh_delete_detached x s s' : delete_detached s = Ok s' -> Kh x s s'.
+Proof.
+  unfold delete_detached. intros H.
+  apply (Kh_trans x s (fst (dd_loop (length (nodes s)) [] s)) s'); [apply Kh_dd_loop|].
+  revert H. apply (foldM_rel (Kh x)); [apply Kh_refl | apply Kh_trans|].
+  intros a c b _ Hc. destruct (find_node c a); [|inversion Hc; apply Kh_refl].
+  unfold after_lost_product in Hc. destruct (fst c); try discriminate; inversion Hc; subst; try apply Kh_refl.
+  apply Kw_Kh. apply K_Kw. apply (Kn_K x (KRoot, [])); [apply Kn_delete_hash | intros g C; inversion C].
+Qed.
+
 (* the transactions of the restarted build as far as they concern an interrupted step [x] that has
    not been dispatched again: its own dispatch is [dispatch_hashless_runs]; completions, skip
    checks and redefinitions are those of OTHER steps; delete_detached comes after the job loop *)
@@ -157,7 +228,7 @@ Definition proto_i (x : str) (s : st) (o : op) : Prop :=
   | OpDefineStep _ lab _ _ _ _ _ => lab <> x
   | OpUpdateHashes c _ => c <> CSucceeded
   | OpResetInterrupted => nodup_by str_eqb (map sl (steps s)) = true
-  | OpDeleteDetached => False
+  | OpDeleteDetached => True
   | _ => True
   end.
 
@@ -186,7 +257,7 @@ Proof.
     eapply K_set_sstate_other; eassumption.
   - apply Hk. apply K_Kw. eapply K_set_sstate_other; [exact H | exact Hp].
   - apply Hk. apply K_Kw. eapply K_mark_step_pending. exact H.
-  - destruct Hp.
+  - eapply Kh_Ix; [eapply Kh_delete_detached; exact H | exact HI].
   - apply Hk. apply K_Kw. unfold hold in H. guards H. inversion H. apply upd_step_K. intros r. split; reflexivity.
   - apply Hk. apply K_Kw. unfold release in H. destruct (find_step label s); [|discriminate].
     guards H. inversion H. apply upd_step_K. intros r. split; reflexivity.
